@@ -1,0 +1,171 @@
+//! Verification hooks for the SLG engine (only compiled with
+//! `--cfg chalk_verif`). One event per engine transition; see
+//! `chalk_ir::verif` for the sink.
+
+use crate::strand::CanonicalStrand;
+use crate::table::Table;
+use crate::{Literal, TableIndex, TimeStamp};
+use chalk_ir::interner::Interner;
+use chalk_ir::verif::{emit, enabled, fp};
+use std::cell::RefCell;
+use std::fmt::Write;
+
+const INF: u64 = 1_000_000_000;
+
+pub(crate) fn ts(t: TimeStamp) -> usize {
+    std::cmp::min(t.clock, INF) as usize
+}
+
+fn lit_json<I: Interner>(l: &Literal<I>) -> String {
+    match l {
+        Literal::Positive(g) => format!("{{\"pos\":true,\"g\":\"{}\"}}", fp(g)),
+        Literal::Negative(g) => format!("{{\"pos\":false,\"g\":\"{}\"}}", fp(g)),
+    }
+}
+
+/// JSON description of a canonical strand (the abstract state the
+/// specification tracks for it).
+pub(crate) fn strand_json<I: Interner>(s: &CanonicalStrand<I>) -> String {
+    let st = &s.value;
+    let ex = &st.ex_clause;
+    let mut out = String::from("{\"lits\":[");
+    for (i, l) in ex.subgoals.iter().enumerate() {
+        if i > 0 {
+            out.push(',');
+        }
+        out.push_str(&lit_json(l));
+    }
+    out.push_str("],\"flo\":[");
+    for (i, f) in ex.floundered_subgoals.iter().enumerate() {
+        if i > 0 {
+            out.push(',');
+        }
+        let _ = write!(
+            out,
+            "{{\"lit\":{},\"t\":{}}}",
+            lit_json(&f.floundered_literal),
+            ts(f.floundered_time)
+        );
+    }
+    out.push_str("],\"del\":[");
+    for (i, d) in ex.delayed_subgoals.iter().enumerate() {
+        if i > 0 {
+            out.push(',');
+        }
+        let _ = write!(out, "\"{}\"", fp(d));
+    }
+    let (sel, sel_t, sel_a) = match &st.selected_subgoal {
+        Some(s) => (
+            s.subgoal_index + 1,
+            s.subgoal_table.value,
+            answer_index_value(s.answer_index),
+        ),
+        None => (0, 0, 0),
+    };
+    let _ = write!(
+        out,
+        "],\"sel\":{},\"selT\":{},\"selA\":{},\"last\":{},\"amb\":{},\"atime\":{},\"sub\":\"{}\",\"ncon\":{}}}",
+        sel,
+        sel_t,
+        sel_a,
+        ts(st.last_pursued_time),
+        ex.ambiguous,
+        ts(ex.answer_time),
+        fp(&(&s.binders, &ex.subst, &ex.constraints)),
+        ex.constraints.len()
+    );
+    out
+}
+
+pub(crate) fn answer_index_value(a: crate::table::AnswerIndex) -> usize {
+    a.verif_value()
+}
+
+pub(crate) fn ev_table_new<I: Interner>(idx: TableIndex, table: &Table<I>) {
+    if !enabled() {
+        return;
+    }
+    let mut strands = String::from("[");
+    for (i, s) in table.strands().enumerate() {
+        if i > 0 {
+            strands.push(',');
+        }
+        strands.push_str(&strand_json(s));
+    }
+    strands.push(']');
+    emit("TableNew", |f| {
+        f.int("table", idx.value)
+            .str("key", &fp(&table.table_goal))
+            .str("g", &fp(&table.table_goal.canonical.value))
+            .bool("co", table.coinductive_goal)
+            .bool("flo", table.is_floundered())
+            .raw("strands", &strands);
+    });
+}
+
+pub(crate) fn ev_strand<I: Interner>(ev: &str, s: &CanonicalStrand<I>) {
+    if !enabled() {
+        return;
+    }
+    let j = strand_json(s);
+    emit(ev, |f| {
+        f.raw("strand", &j);
+    });
+}
+
+thread_local! {
+    static CLEARED: RefCell<Vec<usize>> = RefCell::new(Vec::new());
+}
+
+pub(crate) fn note_cleared(table: TableIndex) {
+    if enabled() {
+        CLEARED.with(|c| c.borrow_mut().push(table.value));
+    }
+}
+
+pub(crate) fn take_cleared() -> String {
+    let v = CLEARED.with(|c| std::mem::take(&mut *c.borrow_mut()));
+    let items: Vec<String> = v.iter().map(|t| t.to_string()).collect();
+    format!("[{}]", items.join(","))
+}
+
+thread_local! {
+    static MERGE_NEXT: RefCell<Option<String>> = RefCell::new(None);
+}
+
+/// Remembers the next-answer strand enqueued by `merge_answer_into_strand`
+/// until the `Merge` event for that call is emitted.
+pub(crate) fn note_merge_next<I: Interner>(s: &CanonicalStrand<I>) {
+    if enabled() {
+        let j = strand_json(s);
+        MERGE_NEXT.with(|m| *m.borrow_mut() = Some(j));
+    }
+}
+
+/// Emits the `Merge` event: `outcome` is one of `ok`, `ambflounder`,
+/// `unifyfail`, `negfail`, `negamb`.
+pub(crate) fn ev_merge(outcome: &str, new_strand: Option<String>) {
+    if !enabled() {
+        return;
+    }
+    let next = MERGE_NEXT.with(|m| m.borrow_mut().take());
+    emit("Merge", |f| {
+        f.str("outcome", outcome)
+            .raw("next", &format!("[{}]", next.unwrap_or_default()))
+            .raw("strand", &format!("[{}]", new_strand.unwrap_or_default()));
+    });
+}
+
+thread_local! {
+    static MERGE_KIND: RefCell<Option<&'static str>> = RefCell::new(None);
+}
+
+pub(crate) fn note_merge_kind(k: &'static str) {
+    if enabled() {
+        MERGE_KIND.with(|m| *m.borrow_mut() = Some(k));
+    }
+}
+
+pub(crate) fn take_merge_kind() -> &'static str {
+    MERGE_KIND.with(|m| m.borrow_mut().take()).unwrap_or("ok")
+}
